@@ -1,4 +1,6 @@
 import Cgm.Lemmas.AuditCmd
 import Cgm.E2E.C08
 import Cgm.E2E.C08b
+import Cgm.E2E.C08g
+import Cgm.E2E.C08h
 #audit_namespace Cg.E2E.C08
